@@ -1029,8 +1029,12 @@ class MiniInterp:
         o = fi.outer
         m = fi.module
         if name in m.assigns:
-            f0 = fi
-            return self.ev(m.assigns[name], {}, f0)
+            # a module-level name is one object for the whole evaluation (sentinels, registries, compiled patterns)
+            cache = self.__dict__.setdefault("_globals", {})
+            key = (m.name, name)
+            if key not in cache:
+                cache[key] = self.ev(m.assigns[name], {}, fi)
+            return cache[key]
         if name in m.functions:
             return BoundFunc(m.functions[name])
         if name in m.classes:
@@ -1047,7 +1051,11 @@ class MiniInterp:
             if isinstance(tgt, tuple) and tgt[0] == "modattr":
                 mm = tgt[1]
                 f0 = next(iter(mm.functions.values()), fi)
-                return self.ev(mm.assigns[tgt[2]], {}, f0)
+                cache = self.__dict__.setdefault("_globals", {})
+                key = (mm.name, tgt[2])
+                if key not in cache:
+                    cache[key] = self.ev(mm.assigns[tgt[2]], {}, f0)
+                return cache[key]
             if isinstance(tgt, tuple) and tgt[0] == "external":
                 return T("external", tgt[1])
         if name in ("True", "False", "None"):
